@@ -10,14 +10,6 @@ Definition is_some {A} (o : option A) : bool := match o with Some _ => true | No
 Definition is_snil (ss : stmts) : bool := match ss with SNil => true | _ => false end.
 Definition is_knil (cs : cases) : bool := match cs with KNil => true | _ => false end.
 
-Definition inctx_ok (s : stmt) : bool :=
-  match s with
-  | SOp None _ _ => true
-  | SCtrl KReturn | SCtrl KEnd | SCtrl KHold => true
-  | SAssign _ => true
-  | _ => false
-  end.
-
 Definition bad_not_bit (perf : string) (c : cond) : bool :=
   match c with
   | CBit true v _ => negb (is_perf perf v)
@@ -31,6 +23,20 @@ Section Scoped.
 Variable perf : string.
 Variable L : list string.      (* the labels defined in the file *)
 
+(* the statement of a with-block: no label, no block; jumps and loop / case control are scoped as anywhere else *)
+Definition inctx_ok (sw ct bl : bool) (s : stmt) : bool :=
+  match s with
+  | SOp None _ _ => true
+  | SCtrl KBreak => sw
+  | SCtrl KContinue => ct
+  | SCtrl KBreakLoop => bl
+  | SCtrl _ => true
+  | SAssign _ => true
+  | SJump l => mem_string l L
+  | SCall l => mem_string l L
+  | _ => false
+  end.
+
 Fixpoint ws_stmt (sw ct bl : bool) (s : stmt) {struct s} : bool :=
   match s with
   | SOp _ _ _ => true
@@ -42,7 +48,7 @@ Fixpoint ws_stmt (sw ct bl : bool) (s : stmt) {struct s} : bool :=
   | SCtrl KBreakLoop => bl
   | SCtrl _ => true
   | SAssign _ => true
-  | SWith _ _ inner => inctx_ok inner
+  | SWith _ _ inner => inctx_ok sw ct bl inner
   | SIf _ cs body el els =>
       conds_ok perf cs && ws_stmts sw ct bl body && ws_elifs sw ct bl el && ws_ostmts sw ct bl els
   | SSwitch _ cs => Nat.leb (count_defaults cs) 1 && ws_cases true ct bl cs
